@@ -742,6 +742,24 @@ pub fn generate(prop: &str, out: &mut Out, thorough: bool, seed: u64) -> bool {
             p.caps = if prop == "C07" && rng.chance(3, 4) { vec![crate::dec::QUERY_CAP] } else { gen_caps(&mut rng, repl, prop == "C06") };
             emit(out, &p, &props);
         }
+        // bulk / fast-path regime: an ASCII run around a stride boundary, one non-ASCII character
+        // (mappable, unmappable, astral, U+0080, a pair ending in DFFF), a short tail; capacities around the run length
+        let runs: &[usize] = if thorough { &[7, 8, 15, 16, 17, 23, 24, 31, 32, 33, 40, 47, 48, 63, 64, 65, 127, 128, 129] } else { &[15, 16, 17, 31, 32, 33, 40, 47, 48, 63, 64, 65] };
+        const AFTER: &[u32] = &[0xE9, 0x3042, 0x80, 0x1F4A9, 0x10FFFF, 0xE5E5, 0x20AC, 0xFFFD];
+        for (ri, &l) in runs.iter().enumerate() {
+            for variant in 0..(if thorough { 8 } else { 3 }) {
+                let mut text: String = (0..l).map(|j| b"abc, .x0;"[(j + ri) % 9] as char).collect();
+                text.push(char::from_u32(AFTER[(variant + ri) % AFTER.len()]).unwrap());
+                text.push_str(&"yz"[..(variant % 3).min(2)]);
+                let utf16 = (variant + ri) % 2 == 0;
+                let repl = matches!(prop, "C09" | "C12") || variant % 3 == 1;
+                let mut p = EPlan { enc: e, utf16, repl, units16: text.encode_utf16().collect(), cuts: vec![], caps: vec![] };
+                p.cuts = vec![p.src_len()];
+                let m = min_cap(repl);
+                p.caps = if prop == "C07" { vec![crate::dec::QUERY_CAP] } else { vec![(l + rng.below(5)).max(m + 1) - 1, m + rng.below(4)] };
+                emit(out, &p, &props);
+            }
+        }
         // boundary pass: every constant of the source (and its neighbours) between two ASCII characters,
         // one complete call, alternating source form; with replacement where the property is about it
         let repl = matches!(prop, "C03" | "C09" | "C12" | "C18" | "C06" | "C08");
